@@ -155,19 +155,19 @@ def live_state(objs, spec):
         e = spec["objs"][n]
         meta = S.META[e["cls"]]
         for a in meta["lists"]:
-            st_["lists"][(n, a)] = [x.name for x in getattr(o, a)]
+            st_["lists"][(n, a)] = [S.key_of(x) for x in getattr(o, a)]
         for a in meta["links"]:
-            st_["links"][(n, a)] = getattr(o, a).name
-        st_["containers"][n] = sorted(c.name for c in o.modeling_obj_containers)
-        st_["systems"][n] = sorted(s.name for s in o.systems)
-    st_["lists"][("system", "usage_patterns")] = [x.name for x in objs["system"].usage_patterns]
+            st_["links"][(n, a)] = S.key_of(getattr(o, a))
+        st_["containers"][n] = sorted(S.key_of(c) for c in o.modeling_obj_containers)
+        st_["systems"][n] = sorted(S.key_of(s) for s in o.systems)
+    st_["lists"][("system", "usage_patterns")] = [S.key_of(x) for x in objs["system"].usage_patterns]
     for n in names:
         o = objs[n]
         cls = spec["objs"][n]["cls"]
         for a in {"Storage": ["jobs"], "UsageJourney": ["usage_patterns"], "UsageJourneyStep": ["usage_journeys"],
                   "Network": ["usage_patterns", "jobs"], "Country": ["usage_patterns"]}.get(
                 cls, ["jobs"] if cls in S.SERVER_CLS else (["usage_patterns", "networks"] if cls in S.JOB_CLS else [])):
-            vals = [x.name for x in getattr(o, a)]
+            vals = [S.key_of(x) for x in getattr(o, a)]
             st_["lookups"][(n, a)] = sorted(set(vals))
             if len(vals) != len(set(vals)) and a != "jobs":
                 st_["lookups"][(n, a + "#duplicates")] = sorted(vals)
